@@ -127,7 +127,7 @@ def attn_p_vc(flavour=None):
             SC = z3.Function("score", z3.IntSort(), z3.RealSort())
 
             def score_contract(I2, a, kw):
-                I2.ex.oblige("score.called_on_the_query_and_key", z3.BoolVal(len(a) == 3 and a[1] is q and a[2] is k and not kw))
+                I2.ex.oblige("structure.score.called_on_the_query_and_key", z3.BoolVal(len(a) == 3 and a[1] is q and a[2] is k and not kw))
                 return stn.ST((T,), lambda t: SC(ip.to_z3(t)), "float")
 
             I.contracts["%s.score" % flavour] = score_contract
